@@ -118,7 +118,11 @@ TYPES = [
     record("DEmp", [F("de", R("DIn"), default="{}"), F("dsp", R("DIn"), default="{ }"), F("dp", R("DIn"), default='{"c":"x","n":8}'),
                     F("dq", R("DIn"), default='{"c":"y","m":{}}'), F("dz", P("int32"), default="3"),
                     F("dms", M(P("string")), default='{"k":"v"}'), F("dai", A(P("int32")), default="[4]"),
-                    F("on", R("DIn"), True), F("ol", A(R("DIn")), True)]),
+                    F("on", R("DIn"), True), F("ol", A(R("DIn")), True),
+                    # collection defaults that CONTAIN an empty collection (not the empty collection), and spaced empty literals
+                    F("aa", A(A(P("int32"))), default="[[]]"), F("mm", M(M(P("int32"))), default='{"a":{}}'),
+                    F("aas", A(A(P("int32"))), default="[ ]"), F("mms", M(M(P("int32"))), default="{ }"),
+                    F("am", A(M(P("int32"))), default="[{}]"), F("ma", M(A(P("string"))), default='{"k":[]}')]),
     # a WIDE record: 70 required fields, 36 of them through an include (required-field bookkeeping must not depend on the count)
     record("WBase", [F("a%02d" % i, P("string") if i % 9 == 4 else P("int32")) for i in range(36)]),
     record("Wide", [F("f%02d" % i, P("bool") if i % 8 == 5 else P("int32")) for i in range(34)] +
